@@ -66,18 +66,52 @@ def build_factory(cfg):
                 return OUTSIDE[chooser.choose("outside", len(OUTSIDE))] if cfg.get("outside", True) else 0.0
 
         class SimBackend(UserBlackboxBackend):
+            # besides the C10 probes, emit the ground-truth events monitors.lifecycle understands (used by C01)
+            _v_run = {}
+            _v_occ = set()
+            _v_polls = 0
+            _v_stop_all = False
+
             def _schedule(self, trial_id, config):
+                r = self._v_run.get(trial_id, -1) + 1
+                self._v_run[trial_id] = r
+                occ = len(self._v_occ)
                 super()._schedule(trial_id, config)
+                self._v_occ.add(trial_id)
+                log.append(("schedule", trial_id, r, 0, 0, occ, False, False))
                 log.append(("sim_schedule", trial_id, self._time_keeper.time(), dict(config)))
+
+            def _resume_trial(self, trial_id):
+                log.append(("resume", trial_id, True, False))
+                super()._resume_trial(trial_id)
+
+            def _process_complete_event(self, trial_id, time_event, status):
+                super()._process_complete_event(trial_id, time_event, status)
+                self._v_occ.discard(trial_id)
+                if status == "Completed":
+                    log.append(("exit", trial_id, self._v_run.get(trial_id)))
+                elif status == "Failed":
+                    log.append(("crash", trial_id, self._v_run.get(trial_id)))
+
+            def fetch_status_results(self, trial_ids):
+                self._v_polls += 1
+                log.append(("poll", self._v_polls, tuple(trial_ids)))
+                return super().fetch_status_results(trial_ids)
+
+            def stop_all(self):
+                log.append(("stop_all",))
+                super().stop_all()
 
             def pause_trial(self, trial_id, result=None):
                 log.append(("sim_pause", trial_id, None if result is None else result.get("epoch"), self._time_keeper.time()))
                 super().pause_trial(trial_id, result)
+                log.append(("pause", trial_id, self._v_run.get(trial_id)))
                 log.append(("sim_clock", self._time_keeper.time()))
 
             def stop_trial(self, trial_id, result=None):
                 log.append(("sim_stop", trial_id, self._time_keeper.time()))
                 super().stop_trial(trial_id, result)
+                log.append(("stop", trial_id, self._v_run.get(trial_id)))
                 log.append(("sim_clock", self._time_keeper.time()))
 
         mra = "epochs" if cfg["mra"] else None
@@ -86,6 +120,7 @@ def build_factory(cfg):
                              simulator_config=SimulatorConfig(**SIMCONF[cfg["simconf"]]),
                              tuner_sleep_time=cfg["sleep"])
         backend._time_keeper = ChoiceTimeKeeper()
+        backend._v_run, backend._v_occ = {}, set()
         sched, info = scheds.make(cfg["kind"], mode="min", seed=cfg["seed"], R=cfg["R"], mra=cfg["mra"], space=cs,
                                   metric="loss", allow_duplicates=True, set_tk=False)
         tunerx.wrap_scheduler(sched, log)
@@ -290,7 +325,7 @@ def configs(tier, seed):
                                 i += 1
                                 if tier == "quick" and (i + seed) % 12 != 0:
                                     continue
-                                if tier == "thorough" and (i + seed) % 2 != 0:
+                                if tier == "thorough" and (i + seed) % 4 != 0:
                                     continue
                                 n_seeds = 1 + (i % 2)
                                 loop_cap = 400 if sleep >= 0.1 else 3000
@@ -298,7 +333,7 @@ def configs(tier, seed):
                                                 n_a=2 + (i % 2), n_seeds=n_seeds, R=4 if i % 3 else 3, seed=seed,
                                                 bseed=None if i % 4 else 0, stop={"max_num_trials_started": 4},
                                                 k=1 if tier == "quick" else 2, loop_cap=loop_cap,
-                                                max_exec=60 if tier == "quick" else 1500))
+                                                max_exec=60 if tier == "quick" else 600))
     return out
 
 
